@@ -257,6 +257,70 @@ def obsLine (st : DState) (out : StepOut) : String :=
   let alloc := match allocationSize st.cfg out.w.t with | .ok n => toString n | .error f => s!"FAULT({f})"
   s!"{out.ret}{invNote st out.w.t} ; {fmtState st.ids out.w.t} len={out.w.t.items} cap={out.w.t.capacity} asz={alloc} ; {fmtEvents st.coll st.cfg.needsDrop out.w.log} ; h={out.w.hc} e={out.w.ec} c={out.w.cc} p={out.w.pc} a={out.w.ac} d={out.w.dc}"
 
+
+/-! ### pure-function lines (C17, C18) -/
+
+def unhex (s : String) : List Nat :=
+  let cs := s.toList
+  let dv (c : Char) : Nat :=
+    if c.isDigit then c.toNat - '0'.toNat else if c.toNat ≥ 'a'.toNat then c.toNat - 'a'.toNat + 10 else 0
+  let rec go (l : List Char) (fuel : Nat) : List Nat :=
+    match fuel, l with
+    | fuel + 1, a :: b :: rest => (dv a * 16 + dv b) :: go rest fuel
+    | _, _ => []
+  go cs cs.length
+
+def fmtOptNat : Option Nat → String
+  | none => "none"
+  | some b => s!"some {b}"
+
+def evalFn (cfg : Cfg) (toks : List String) : String :=
+  let W := cfg.W
+  let bits := cfg.bits
+  match toks with
+  | ["fn", "c2b", cap, size] => fmtOptNat (capacityToBuckets bits W (nat! size) (nat! cap))
+  | ["fn", "bm2c", m] => toString (bucketMaskToCapacity (nat! m))
+  | ["fn", "layout", size, ca, b] =>
+    match calculateLayoutFor bits W (nat! size) (nat! ca) (nat! b) with
+    | none => "none"
+    | some l => s!"some {l.size} {l.align} {l.ctrlOffset}"
+  | ["fn", "probe", h, mask, steps] =>
+    let rec go (k : Nat) (p : ProbeSeq) (acc : List Nat) : List Nat :=
+      match k with
+      | 0 => acc.reverse
+      | k + 1 => go k (p.moveNext W (nat! mask)) (p.pos :: acc)
+    fmtNats (go (nat! steps) (probeSeq bits (nat! mask) (nat! h)) [])
+  | ["fn", "tag", h] => s!"{tagFull bits (nat! h)} {h1 bits (nat! h)}"
+  | ["fn", "tagbits", b] =>
+    let sie := if isSpecial (nat! b) then toString (specialIsEmpty (nat! b)) else "na"
+    s!"{isFull (nat! b)} {isSpecial (nat! b)} {sie}"
+  | ["fn", "samegroup", i, ni, h, mask] =>
+    toString (isInSameGroup bits W (nat! mask) (nat! i) (nat! ni) (nat! h))
+  | ["fn", "grp", hx, t] =>
+    let g := unhex hx
+    let o := cfg.ops
+    let cv := String.join ((o.convert g).map hex2)
+    s!"mt={fmtNats (o.matchTag g (nat! t))} me={fmtNats (o.matchEmpty g)} ms={fmtNats (o.matchSpecial g)} mf={fmtNats (o.matchFull g)} lz={o.emptyLeadingZeros g} tz={o.emptyTrailingZeros g} cv={cv}"
+  | ["fn", "static_empty"] => String.join ((Raw.new W).ctrl.toList.map hex2)
+  | ["fnrange", "c2b", lo, hi, size] =>
+    let lo := nat! lo
+    let hi := nat! hi
+    let size := nat! size
+    Id.run do
+      let mut out := ""
+      let mut last : Option (Option Nat) := none
+      for i in [0:hi - lo] do
+        let cap := lo + i
+        let v := capacityToBuckets bits W size cap
+        if last != some v then
+          out := out ++ s!"{cap}:{(fmtOptNat v).replace " " ""},"
+          last := some v
+      return out
+  | ["fnrange", "bm2c", hi] =>
+    String.intercalate "," ((List.range (nat! hi)).map fun k => toString (bucketMaskToCapacity (2 ^ k - 1)))
+  | ["fnrange", "capcheck", _, _, _] => "bad=0"     -- the property itself (theorem capacityToBuckets_spec)
+  | _ => s!"bad-fn {String.intercalate " " toks}"
+
 /-- Process one line; returns the new state and an optional output line. -/
 def stepLine (st : DState) (line : String) : DState × Option String :=
   let toks := (line.trimAscii.toString.splitOn " ").filter (· ≠ "")
@@ -265,6 +329,8 @@ def stepLine (st : DState) (line : String) : DState × Option String :=
   | "scn" :: id :: rest => (parseScn rest st, some s!"scn {id}")
   | "env" :: rest => (parseEnv rest st, none)
   | "plan" :: rest => (parsePlan rest st, none)
+  | "fn" :: _ => (st, some (evalFn st.cfg toks))
+  | "fnrange" :: _ => (st, some (evalFn st.cfg toks))
   | "end" :: _ =>
     -- both collections are dropped; whatever is still allocated afterwards was leaked
     let env := mkEnv { st.envp with dpanic := none } st.plan
